@@ -83,6 +83,14 @@ func BuildRequest(universe []*corpus.File, toGen []string, param string) *plugin
 		for _, d := range wk.Dependency {
 			visit(d)
 		}
+		if name == "cosmos_proto/cosmos.proto" {
+			// the descriptor linked into this binary carries the go_package of the proto
+			// source tree; the Go package actually lives at the module root
+			if wk.Options == nil {
+				wk.Options = &descriptorpb.FileOptions{}
+			}
+			wk.Options.GoPackage = proto.String("github.com/cosmos/cosmos-proto;cosmos_proto")
+		}
 		ordered = append(ordered, wk)
 	}
 	for _, n := range toGen {
